@@ -6,6 +6,7 @@ package expand
 import (
 	"fmt"
 	"iter"
+	"math"
 	"slices"
 	"strconv"
 	"strings"
@@ -124,6 +125,9 @@ func bracesSeqRec(word *syntax.Word, yield func(*syntax.Word) bool) bool {
 				next.Parts = append([]syntax.WordPart{lit}, rest...)
 				if !expand(&next) {
 					return false
+				}
+				if (incr > 0 && n > math.MaxInt64-incr) || (incr < 0 && n < math.MinInt64-incr) {
+					break // the next step would overflow
 				}
 			}
 			return true
